@@ -43,7 +43,64 @@ Lemma src_set_prefixlen_w_ok ver w n z :
   omap (fun x => (fst n, x)) (src_IPNetwork_set_prefixlen ver w (fst n) (snd n) (SInt z)) = set_prefixlen_w w n z.
 Proof. unfold src_IPNetwork_set_prefixlen, set_prefixlen_w. destruct (negb ((0 <=? z) && (z <=? w))); reflexivity. Qed.
 
+(* ---- IPNetwork.supernet: `supernet = self.cidr; supernet._prefixlen = prefixlen; while supernet._prefixlen != self._prefixlen:
+   supernets.append(supernet.cidr); supernet._prefixlen += 1`.  The attribute assignments on the local copy are record
+   updates of a generated `net` value; the `while` loop is a generated Fixpoint on fuel (`Z.to_nat w + 2`, FUEL table) that
+   accumulates with `++ [x]` where the model conses onto the recursive result.  Because _prefixlen is assigned directly (no
+   setter), the generated loop tests the class invariant 0 <= prefixlen <= width before it reads `.cidr` (whose translation
+   relies on it) and says `Raise Unsupported` where it fails; the model says ValueError there (CPython's negative shift count).
+   Hence the hypotheses prefixlen <= p <= width: the loop then stops at p without leaving the invariant. ---- *)
+Definition wnet_net (ver : Z) (n : wnet) : net := {| nver := ver; nval := fst n; nplen := snd n |}.
+
+Lemma src_cidr_checked_ok ver v p : valid_ver ver = true -> p <= width ver ->
+  src_IPNetwork_cidr ver (width ver) v p = omap (wnet_net ver) (cidr_checked (width ver) (v, p)).
+Proof.
+  intros Hv Hp. unfold cidr_checked. replace (width ver - p <? 0) with false by lia.
+  change (src_IPNetwork_cidr ver (width ver) v p) with (mk_net ver (Z.land v (netmask_int (width ver) p)) p).
+  unfold mk_net, max_int. rewrite Hv. cbv zeta.
+  destruct (negb ((0 <=? Z.land v (netmask_int (width ver) p)) && (Z.land v (netmask_int (width ver) p) <=? max_int_w (width ver))));
+    [reflexivity|].
+  destruct (negb ((0 <=? p) && (p <=? width ver))); reflexivity.
+Qed.
+
+Lemma src_supernet_loop_ok ver v p : valid_ver ver = true -> p <= width ver ->
+  forall fuel acc sv r, 0 <= r <= p ->
+  src_IPNetwork_supernet_loop1 fuel ver (width ver) v p (map (wnet_net ver) acc) {| nver := ver; nval := sv; nplen := r |} =
+    omap (fun rest => map (wnet_net ver) (acc ++ rest)) (supernet_loop fuel (width ver) sv r p).
+Proof.
+  intros Hv Hp. induction fuel as [|f IH]; intros acc sv r Hr; [reflexivity|].
+  cbn [src_IPNetwork_supernet_loop1 supernet_loop nver nval nplen].
+  destruct (r =? p) eqn:E; cbn [negb].
+  - cbn [omap]. rewrite app_nil_r. reflexivity.
+  - replace (negb ((0 <=? r) && (r <=? width ver))) with false by lia.
+    rewrite (src_cidr_checked_ok ver sv r Hv) by lia.
+    destruct (cidr_checked (width ver) (sv, r)) as [c|]; [|reflexivity]. cbn [omap bind]. cbv zeta.
+    change [wnet_net ver c] with (map (wnet_net ver) [c]). rewrite <- map_app.
+    rewrite IH by lia.
+    destruct (supernet_loop f (width ver) sv (r + 1) p) as [rest|]; [|reflexivity].
+    cbn [omap bind]. rewrite <- app_assoc. reflexivity.
+Qed.
+
+Lemma src_supernet_ok ver v p prefixlen : valid_ver ver = true -> p <= width ver -> prefixlen <= p ->
+  src_IPNetwork_supernet ver (width ver) v p prefixlen = omap (map (wnet_net ver)) (supernet (width ver) (v, p) prefixlen).
+Proof.
+  intros Hv Hp Hq. unfold src_IPNetwork_supernet, supernet.
+  destruct ((0 <=? prefixlen) && (prefixlen <=? width ver)) eqn:E; cbn [negb]; [|reflexivity].
+  rewrite (src_cidr_checked_ok ver v p Hv Hp).
+  destruct (cidr_checked (width ver) (v, p)) as [[sv p']|]; [|reflexivity]. cbn [omap bind fst snd]. cbv zeta.
+  cbn [wnet_net nver nval nplen fst snd].
+  change (@nil net) with (map (wnet_net ver) []).
+  rewrite (src_supernet_loop_ok ver v p Hv Hp) by lia.
+  destruct (supernet_loop (Z.to_nat (width ver) + 2) (width ver) sv prefixlen p) as [l|]; reflexivity.
+Qed.
+
 Lemma C11_tie_ok :
+  (forall ver v p prefixlen, valid_ver ver = true -> p <= width ver -> prefixlen <= p ->
+     src_IPNetwork_supernet ver (width ver) v p prefixlen =
+       omap (map (wnet_net ver)) (supernet (width ver) (v, p) prefixlen)) /\
+  (forall ver v p, valid_ver ver = true -> p <= width ver -> forall fuel acc sv r, 0 <= r <= p ->
+     src_IPNetwork_supernet_loop1 fuel ver (width ver) v p (map (wnet_net ver) acc) {| nver := ver; nval := sv; nplen := r |} =
+       omap (fun rest => map (wnet_net ver) (acc ++ rest)) (supernet_loop fuel (width ver) sv r p)) /\
   (forall ver w v p num, mk_addr ver (net_network w v p) = Ok (ver, net_network w v p) ->
      omap (fun nv => (nv, p)) (src_IPNetwork_iadd ver w v p num) = net_iadd w (v, p) num /\
      omap (fun nv => (nv, p)) (src_IPNetwork_isub ver w v p num) = net_isub w (v, p) num) /\
@@ -63,6 +120,7 @@ Lemma C11_tie_ok :
    src_ipv4_max_int = max_int_w src_ipv4_width /\ src_ipv6_max_int = max_int_w src_ipv6_width /\
    src_ipv4_max_int = max_int 4 /\ src_ipv6_max_int = max_int 6).
 Proof.
+  split; [exact src_supernet_ok|]. split; [exact src_supernet_loop_ok|].
   split; [intros; split; [apply src_net_iadd_ok|apply src_net_isub_ok]; assumption|].
   split; [intros ver v p num Hver Hp Hv; pose proof (network_ctor_ok ver v p Hver Hp Hv);
           split; [apply src_net_iadd_ok|apply src_net_isub_ok]; assumption|].
